@@ -436,8 +436,17 @@ func (r *Report) rescueRenamed(haveKey map[string]bool) {
 			sort.Strings(cands)
 			for _, tk := range cands {
 				trule, tfn, tcons, ttail, ok := splitKey(tk)
-				if !ok || trule != rule || tfn != fn || r.usedTbl[tk] {
+				if !ok || trule != rule || r.usedTbl[tk] {
 					continue
+				}
+				renumbered := false
+				if tfn != fn {
+					// function literals are numbered in source order (f$1, f$2): moving one
+					// (exchanging the branches of an if) renumbers them
+					if !sameButLiteralNumbers(tfn, fn) {
+						continue
+					}
+					renumbered = true
 				}
 				base := tk
 				if j := strings.LastIndex(base, "#"); j >= 0 && strings.Contains(ttail, "#") {
@@ -452,6 +461,12 @@ func (r *Report) rescueRenamed(haveKey map[string]bool) {
 					continue
 				}
 				var whys []string
+				if renumbered {
+					if tcons != cons || tord != ord {
+						continue
+					}
+					whys = append(whys, fmt.Sprintf("entry written when this function literal was %s", tfn))
+				}
 				if tcons != cons {
 					a, b, ok := oneIdentRenamed(tcons, cons)
 					if !ok || r.W.localInScope(o.Pos, a) || !r.W.localInScope(o.Pos, b) {
@@ -581,4 +596,26 @@ func identTokens(s string) []string {
 		i++
 	}
 	return out
+}
+
+// sameButLiteralNumbers: a and b name function literals of the same enclosing
+// function at the same nesting depth and differ only in the numbers.
+func sameButLiteralNumbers(a, b string) bool {
+	pa, pb := strings.Split(a, "$"), strings.Split(b, "$")
+	if len(pa) != len(pb) || len(pa) < 2 || pa[0] != pb[0] {
+		return false
+	}
+	diff := false
+	for i := 1; i < len(pa); i++ {
+		if _, err := strconv.Atoi(pa[i]); err != nil {
+			return false
+		}
+		if _, err := strconv.Atoi(pb[i]); err != nil {
+			return false
+		}
+		if pa[i] != pb[i] {
+			diff = true
+		}
+	}
+	return diff
 }
